@@ -246,8 +246,9 @@ func c14Keygen(c *ctx) {
 	}
 	for _, b := range nilErrReturnBlocks(fn, 2) {
 		ret := b.Instrs[len(b.Instrs)-1].(*ssa.Return)
-		priv := storedFields(ret.Results[0])
-		pub := storedFields(ret.Results[1])
+		// (the key structs may be assembled by a private helper: newPrivateKey(P, Q, N))
+		priv := storedFields(core.ResolveIn(fn, ret.Results[0]))
+		pub := storedFields(core.ResolveIn(fn, ret.Results[1]))
 		chk := func(name string, v ssa.Value, m M) {
 			if v == nil {
 				ok = false
@@ -269,7 +270,7 @@ func c14Keygen(c *ctx) {
 		if pk := priv["PublicKey"]; pk == nil {
 			ok = false
 			why += "privateKey.PublicKey is not set; "
-		} else if u, isU := core.Strip(pk).(*ssa.UnOp); !isU || core.Strip(u.X) != core.Strip(ret.Results[1]) {
+		} else if u, isU := core.Strip(pk).(*ssa.UnOp); !isU || core.ResolveParamIn(fn, u.X) != core.Strip(ret.Results[1]) {
 			// accept a copy of the returned public key struct
 			if !(isU && allocSame(u.X, ret.Results[1])) {
 				ok = false
